@@ -19,8 +19,10 @@ MANIFEST = {
             "trip, segwit encode/decode inverse for every allowed (hrp, version, program), rejection of mixed case, wrong constant, bad "
             "length and padding; alphabets and constants regenerated from the source on every run; model tied to the code by "
             "differential correspondence on every public entry point.",
-    "note": "Detection of every <=4-character error is proved by reduction to a finite statement about the generator polynomial; "
-            "weights 3-4 of that finite statement are sampled, not proved. hashlib.sha256 is a function symbol in the theorems.",
+    "note": "Detection of every <=4-character error is proved by reduction (linearity) to a finite statement about the syndromes of "
+            "error words; weights 1-2 of it are checked in the Lean kernel, weights 3-4 are sampled, not proved. The clause holds only "
+            "within one checksum constant: 3-4 substitutions can turn a valid Bech32 string into a valid Bech32m string (inherent to "
+            "BIP350; witness in corpus, listed as a known finding). hashlib.sha256 is a function symbol in the theorems.",
     "technique": "Lean 4 proof (induction over an executable model, decide over generated tables) + differential correspondence model vs implementation",
 }
 RULE = ("ops b58enc/b58dec/b58cenc/b58cdec/b58cvalid/c11_pb58/bech32enc/bech32dec/bech32raw/bech32err/c11_pbech32/convertbits/bech32chk; "
@@ -185,6 +187,36 @@ def _valid_shape(t: str) -> bool:
     return pos >= 1 and pos + 7 <= len(t) and all(c in CHARSET for c in t[pos + 1:])
 
 
+CROSS_CONST = ("a string differing in 1..4 characters from a valid string was accepted across the two checksum constants "
+               "(Bech32 <-> Bech32m)")
+
+
+def _ref_spec(t: str):
+    """1 / 2 when t is a valid Bech32 / Bech32m string by the reference in this file, else None"""
+    if not _valid_shape(t):
+        return None
+    tl = t.lower()
+    pos = tl.rfind("1")
+    data = [_REF_CHARSET.find(c) for c in tl[pos + 1:]]
+    for spec in (1, 2):
+        if _ref_bech32_encode(tl[:pos], data[:-6], spec) == tl:
+            return spec
+    return None
+
+
+def _known_cross_const(v) -> bool:
+    """BIP350 does not promise detection of 3-4 substitutions that turn a Bech32 string into a Bech32m string (or back):
+    both strings are valid by the reference encoder, with different constants"""
+    a = str(v.get("input", "")).split(" ")
+    if len(a) != 3 or a[0] != "bech32err" or v.get("what") != CROSS_CONST:
+        return False
+    so, st = _ref_spec(h2s(a[1])), _ref_spec(h2s(a[2]))
+    return so is not None and st is not None and so != st
+
+
+KNOWN = {"bech32-bech32m-cross-constant": _known_cross_const}
+
+
 def _bch_guarantee_applies(o: str, t: str) -> bool:
     """o valid, t differs from it in 1..4 positions, in a way the BCH code is guaranteed to detect: substitutions inside
     the data part by CHARSET characters, or of a lower-case hrp letter by another lower-case letter (same `ord >> 5`, so one
@@ -313,7 +345,9 @@ def oracle(op: str, out: str):
             if why:
                 return why
         if r_o.startswith("ok") and len(o) == len(t) and _bch_guarantee_applies(o, t) and r_t.startswith("ok"):
-            return "a string differing in 1..4 characters from a valid Bech32 string was accepted"
+            if r_o.split(" ")[-1] == r_t.split(" ")[-1]:
+                return "a string differing in 1..4 characters from a valid Bech32 string was accepted (same checksum constant)"
+            return CROSS_CONST
     elif k == "bech32chk":
         spec = int(a[3])
         if spec in (1, 2) and not out.endswith(" %d" % spec):
